@@ -13,8 +13,8 @@ namespace vs { namespace c02 {
 
 using namespace muscle;
 
-enum {T_BIN = 0, T_TMPL, T_TEXT, T_RAW, T_SLIP, T_WS, T_MINI, T_MICRO, T_TUNNEL, T_MINITUNNEL, T_UDP, NUM_T};   // T_UDP: the plain MessageIOGateway in packet mode (one Message per datagram)
-static const char * kTNames[NUM_T] = {"bin", "tmpl", "text", "raw", "slip", "ws", "mini", "micro", "tunnel", "minitunnel", "udp"};
+enum {T_BIN = 0, T_TMPL, T_TEXT, T_RAW, T_SLIP, T_WS, T_MINI, T_MICRO, T_TUNNEL, T_MINITUNNEL, T_UDP, T_UDPTEXT, NUM_T};   // T_UDPTEXT: the plain-text gateway in packet mode (lines per datagram)     // T_UDP: the plain MessageIOGateway in packet mode (one Message per datagram)
+static const char * kTNames[NUM_T] = {"bin", "tmpl", "text", "raw", "slip", "ws", "mini", "micro", "tunnel", "minitunnel", "udp", "udptext"};
 inline int TFromName(const std::string & s) {for (int i=0; i<NUM_T; i++) if (s == kTNames[i]) return i; return -1;}
 
 // ---------------------------------------------------------------- allocation metering (bytes requested from malloc/new)
@@ -85,7 +85,7 @@ inline Plan Gen(uint64_t seed)
 {
    Rng cfg(seed, "config"), wl(seed, "workload"), fl(seed, "faults");
    Plan p;
-   static const int weights[NUM_T] = {34, 16, 5, 4, 5, 8, 10, 0, 9, 9, 6};
+   static const int weights[NUM_T] = {34, 16, 5, 4, 5, 8, 10, 0, 9, 9, 6, 3};
    int tot = 0; for (int w : weights) tot += w;
    int pk = (int) cfg.below((uint32_t) tot), t = 0; while(pk >= weights[t]) {pk -= weights[t]; t++;}
    if (cfg.oneIn(300)) t = T_MICRO;   // the micro codec's read API is not bounds-checked at all (recorded finding F27: nearly every rewritten stream crashes it), so it is sampled rarely
@@ -93,7 +93,7 @@ inline Plan Gen(uint64_t seed)
    static const uint32_t lrus[] = {100, 1000, 100000, 1024*1024};
    static const uint32_t mtus[] = {25, 40, 64, 100, 300, 576, 1500, 9000};
    uint32_t mtu = mtus[cfg.below(8)]; if ((t == T_MINITUNNEL)&&(mtu < 64)) mtu = 200;
-   if (t == T_UDP) {static const uint32_t um[] = {1500, 2047, 2048, 2049, 4096, 8192, 9000, 65000}; mtu = um[cfg.below(8)];}   // around and beyond the gateway's 2048-byte scratch buffer
+   if ((t == T_UDP)||(t == T_UDPTEXT)) {static const uint32_t um[] = {1500, 2047, 2048, 2049, 4096, 8192, 9000, 65000}; mtu = um[cfg.below(8)];}   // around and beyond the gateway's 2048-byte scratch buffer
    const uint32_t maxin = cfg.oneIn(8) ? 0 : (16u<<20);
    p.push_back("cfg prop=C02 gw=" + std::string(kTNames[t]) + " enc=" + I(enc) + " lru=" + U(lrus[cfg.below(4)]) + " minchunk=" + U(cfg.oneIn(2) ? 0 : (1 + cfg.below(20)))
                + " mtu=" + U(mtu) + " zl=" + I(cfg.oneIn(2) ? 0 : (1 + cfg.below(9))) + " maxin=" + U(maxin) + " slave=" + I(cfg.oneIn(3) ? 0 : 1)
@@ -105,7 +105,7 @@ inline Plan Gen(uint64_t seed)
    for (int i=0; i<numMsgs; i++)
    {
       const uint64_t gs = wl.u64() & 0xffffffffffffULL;
-      if (t == T_TEXT) p.push_back("text " + U(gs) + " " + I(1 + wl.below(4)));
+      if ((t == T_TEXT)||(t == T_UDPTEXT)) p.push_back("text " + U(gs) + " " + I(1 + wl.below(4)));
       else if ((t == T_RAW)||(t == T_SLIP)) p.push_back("raw " + U(gs) + " " + I(1 + wl.below(3)));
       else
       {
@@ -122,6 +122,7 @@ inline Plan Gen(uint64_t seed)
    for (int i=0; i<numMut; i++)
    {
       const uint32_t r = fl.below(100);
+      if (((t == T_UDP)||(t == T_UDPTEXT))&&(Rng(seed, "fill").oneIn(3))&&(i == 0)) {p.push_back("mut fill " + U(fl.below(8)) + " " + U(mtu)); continue;}   // one datagram is made exactly MTU bytes long
       if ((t == T_WS)&&(r < 25)) {p.push_back("mut wsclose " + U(fl.below(64)) + " " + U(fl.below(4))); continue;}
            if ((r < 40)&&((t == T_BIN)||(t == T_MINI)||(t == T_MICRO))&&(enc == 0)&&(r >= 12)) p.push_back(fl.oneIn(3) ? ("mut swordt " + U(fl.below(8)) + " " + U(fl.below(10))) : ("mut sword " + U(fl.below(100000)) + " " + U(fl.below(20))));
       else if (((r < 12)||((t == T_TMPL)&&(r < 32)))&&((t == T_BIN)||(t == T_TMPL)||(t == T_MINI))) /* templated frames have no walker of their own: consistent frame truncation is the structural rewrite for them */ p.push_back(std::string(fl.oneIn(2) ? "mut fhdr " : "mut ftail ") + U(fl.below(64)) + " " + U(fl.below(1000)));
@@ -148,7 +149,7 @@ struct Built   // the valid traffic: a byte stream, or a list of datagrams
 
 inline void UnitsOf(int t, const MessageRef & m, std::vector<std::string> & out)
 {
-   if (t == T_TEXT) {const String * s; for (int i=0; m()->FindString(PR_NAME_TEXT_LINE, i, &s).IsOK(); i++) out.push_back(std::string(s->Cstr(), s->Length()));}
+   if ((t == T_TEXT)||(t == T_UDPTEXT)) {const String * s; for (int i=0; m()->FindString(PR_NAME_TEXT_LINE, i, &s).IsOK(); i++) out.push_back(std::string(s->Cstr(), s->Length()));}
    else if ((t == T_RAW)||(t == T_SLIP))
    {
       const void * d; uint32 nb;
@@ -174,7 +175,7 @@ static AbstractMessageIOGatewayRef MakeSender(int t, const Cfg & cfg)
    switch(t)
    {
       case T_TMPL: return AbstractMessageIOGatewayRef(new TemplatingMessageIOGateway((uint32) cfg.i("lru", 100000), enc));
-      case T_TEXT: return AbstractMessageIOGatewayRef(new PlainTextMessageIOGateway);
+      case T_TEXT: case T_UDPTEXT: return AbstractMessageIOGatewayRef(new PlainTextMessageIOGateway);
       case T_RAW:  return AbstractMessageIOGatewayRef(new RawDataMessageIOGateway);
       case T_SLIP: return AbstractMessageIOGatewayRef(new SLIPFramedDataMessageIOGateway);
       case T_WS:   {WebSocketMessageIOGateway * c = cfg.i("wsc", 0) ? new WebSocketMessageIOGateway : new WebSocketMessageIOGateway("/", "localhost", "muscle", "origin"); c->SetSlaveGateway(AbstractMessageIOGatewayRef(new MessageIOGateway(enc))); return AbstractMessageIOGatewayRef(c);}
@@ -191,6 +192,7 @@ static AbstractMessageIOGatewayRef MakeReceiver(int t, const Cfg & cfg)
    switch(t)
    {
       case T_TMPL: {TemplatingMessageIOGateway * g = new MeteredExactFrame<TemplatingMessageIOGateway>((uint32) cfg.i("lru", 100000)); if (maxin) g->SetMaxIncomingMessageSize(maxin); return AbstractMessageIOGatewayRef(g);}
+      case T_UDPTEXT: return AbstractMessageIOGatewayRef(new PlainTextMessageIOGateway);
       case T_TEXT: return (cfg.i("lru", 0) % 3 == 0) ? AbstractMessageIOGatewayRef(new TelnetPlainTextMessageIOGateway) : AbstractMessageIOGatewayRef(new PlainTextMessageIOGateway);   // (every third text run: the telnet variant, whose IAC state machine sees the rewritten bytes)
       case T_RAW:  return AbstractMessageIOGatewayRef(new RawDataMessageIOGateway((uint32) cfg.i("minchunk", 0)));
       case T_SLIP: return AbstractMessageIOGatewayRef(new SLIPFramedDataMessageIOGateway);
@@ -205,14 +207,24 @@ static AbstractMessageIOGatewayRef MakeReceiver(int t, const Cfg & cfg)
 // Produces the valid traffic with real sender code (whole-buffer, fault-free transport).
 inline void BuildValid(int t, const Cfg & cfg, const std::vector<MessageRef> & msgs, Built & b)
 {
-   if ((t != T_TUNNEL)&&(t != T_MINITUNNEL)&&(t != T_UDP)) for (auto & m : msgs) UnitsOf(t, m, b.units);
-   if ((t == T_TUNNEL)||(t == T_MINITUNNEL)||(t == T_UDP))
+   if ((t != T_TUNNEL)&&(t != T_MINITUNNEL)&&(t != T_UDP)&&(t != T_UDPTEXT)) for (auto & m : msgs) UnitsOf(t, m, b.units);
+   if ((t == T_TUNNEL)||(t == T_MINITUNNEL)||(t == T_UDP)||(t == T_UDPTEXT))
    {
+      if (t == T_UDPTEXT)
+      {
+         // Hand-made datagrams (one per Message: its lines, each followed by CRLF).  The real sender cannot be used: PlainTextMessageIOGateway's packet-mode OUTPUT path sizes
+         // its buffer one byte too long for what it writes, and the DataFlattener's complete-write assertion then calls MCRASH on every outgoing Message in a build with
+         // assertions on (observed here; a defect of the sending side, which none of the 20 properties covers -- see DESIGN 10.4).
+         for (auto & m : msgs) {std::string d; const String * ln; for (int i=0; m()->FindString(PR_NAME_TEXT_LINE, i, &ln).IsOK(); i++) {d.append(ln->Cstr(), ln->Length()); d += "\r\n";} if (d.size() > (size_t) cfg.i("mtu", 1500)) d.resize((size_t) cfg.i("mtu", 1500)); if (!d.empty()) b.packets.push_back(d);}
+      }
+      else
+      {
       AbstractMessageIOGatewayRef S = MakeSender(t, cfg);
       QueuePacketDataIO * io = new QueuePacketDataIO((uint32) cfg.i("mtu", 1500)); S()->SetDataIO(DataIORef(io));
       for (auto & m : msgs) (void) S()->AddOutgoingMessage(m);
       for (int i=0; (i<10000)&&(S()->HasBytesToOutput()); i++) if (S()->DoOutput().GetByteCount() <= 0) break;
       b.packets = io->_tx;
+      }
       // expected deliveries = what a clean receiver gets from these packets (the mini tunnel drops Messages that do not fit its MTU; delivery itself is C12's subject)
       AbstractMessageIOGatewayRef R = MakeReceiver(t, cfg);
       QueuePacketDataIO * rio = new QueuePacketDataIO((uint32) cfg.i("mtu", 1500)); rio->_rx.assign(b.packets.begin(), b.packets.end()); R()->SetDataIO(DataIORef(rio));
@@ -332,6 +344,14 @@ inline void Mutate(std::string & s, const std::vector<std::string> & t, Stats & 
    if ((t.size() < 3)||(s.empty())) return;
    const uint32_t len = (uint32_t) s.size();
    const std::string & k = t[1];
+   if ((k == "fill")&&(t.size() >= 4))
+   {
+      // a datagram that fills the transport's MTU exactly (padded with printable bytes, or cut)
+      const size_t n = (size_t) std::min<uint64_t>(ToU(t[3]), 1u<<17); const size_t old = s.size();
+      s.resize(n); for (size_t i=old; i<n; i++) s[i] = (char)('a' + (i % 23));
+      st.inc("mut.datagram_fills_mtu");
+      return;
+   }
    if ((k == "word")&&(t.size() >= 4))
    {
       std::vector<uint32_t> offs; CandidateWords(s, offs); if (offs.empty()) return;
@@ -460,7 +480,7 @@ inline void Exec(const Plan & plan, RunResult & res)
    // 2. valid traffic from real sender code
    SetCurOp("C02 build valid traffic (%s)", kTNames[t]); WatchdogArm(0);
    Built valid; BuildValid(t, cfg, msgs, valid);
-   const bool dgram = (t == T_TUNNEL)||(t == T_MINITUNNEL)||(t == T_UDP);
+   const bool dgram = (t == T_TUNNEL)||(t == T_MINITUNNEL)||(t == T_UDP)||(t == T_UDPTEXT);
 
    // 3. the hostile transport rewrites it
    Built hostile = valid;
